@@ -27,7 +27,7 @@ type item struct {
 
 type C10Scenario struct {
 	Source   string    `json:"source"` // stream/arbitrary: faulty | bytes.Buffer | bytes.Reader | strings.Reader | bufio | onebyte | halfreader | dataerr
-	Class    string    `json:"class"` // roundtrip | stream | arbitrary
+	Class    string    `json:"class"`  // roundtrip | stream | arbitrary
 	Items    []item    `json:"items"`
 	Plan     FaultPlan `json:"plan"`
 	Raw      []byte    `json:"raw,omitempty"` // arbitrary: decoder input
@@ -505,6 +505,7 @@ func TestC10(t *testing.T) {
 		Stubs:       []string{"io.Reader (FaultyReader: fragmentation to any chunking, (0,nil) reads, data together with io.EOF, truncation, error after k bytes)"},
 		Rule: "three classes drawn by rapid: roundtrip = up to 20 typed writes (all 16 kinds incl. varints, NaN payloads, empty / limit-exceeding strings) read back through the buffer reader, or an in-place rewrite compared byte for byte; " +
 			"stream = up to 16 writes decoded by the buffer reader (reference) and by the stream reader over a faulty source; arbitrary = random bytes decoded by both with small string limits; non-trivial = >=2 items; distinct = distinct hash of the decode log",
+		Probes: []string{"class-roundtrip", "class-stream", "class-arbitrary", "rewrite", "truncated", "read-error-planned", "both-error", "fragment", "zero-read", "eof-with-data", "read-error", "read-error-with-data", "source-bytes.Buffer", "source-bufio", "source-dataerr"},
 		Assumptions: []string{"a truncated or failing source is compared as: reads wholly before the cut agree, the straddling read fails in both; error values themselves are not compared",
 			"arbitrary-byte decoding uses limit strings (<= 64) and fixed-size raw reads so that a random length prefix cannot demand gigabytes"},
 	})
